@@ -17,3 +17,4 @@ def run(ctx):
     b = ctx.build('c09', core.MODPATH + '/zzverif/c09', files)
     ctx.children(b, 1, run='TestC09$', timeout=600)
     ctx.children(b, 1, run='TestC09SameName$', timeout=600, what='TestC09SameName')
+    ctx.children(b, 1, run='TestC09Eval$', timeout=300, what='TestC09Eval')
